@@ -33,17 +33,17 @@ void Resource::lock(OpType opType) {
 
     if (m_queue.empty() && (m_activeOp == OpType::None || (m_activeOp == opType && opType == OpType::Read))) {
         m_activeOp = opType;
+        ++m_activeCount;
     } else {
         auto id = m_idCounter++;
 
         enqueue(opType);
 
+        // an admitted request has already been counted by select()
         m_cv.wait(lock, [id, this] {
             return id < m_upperUnlockBound;
         });
     }
-
-    ++m_activeCount;
 }
 
 void Resource::unlock(OpType opType) {
@@ -88,6 +88,10 @@ void Resource::select() {
     m_queue.pop_front();
 
     m_activeOp = op.type;
+
+    // every request admitted by this entry holds the resource from now on,
+    // even if its thread has not woken up yet
+    m_activeCount = op.upperBound - m_upperUnlockBound;
     m_upperUnlockBound = op.upperBound;
 }
 } // tulz::rwp
